@@ -49,13 +49,14 @@ def assign (changes : PyDict S (PyDict S S)) (cur name v : S) : Except PyErr (Py
   | none => .error .keyError
   | some inner => .ok (set changes cur (set inner name v))
 
-/-- `startElement` / `endElement` -/
+/-- `startElement` / `endElement` (the namespace prefix is stripped first, for the instance
+    element as well as for the entries) -/
 def step (st : HSt) : Sax → Except PyErr HSt
   | .start name attrs =>
     match get? attrs sVal with
     | none => .ok st                                    -- `if "val" not in attrs: return`
     | some v =>
-      if name = sInstanceID then .ok { st with current := some v }
+      if stripPrefix name = sInstanceID then .ok { st with current := some v }
       else
         let cur := orZero st.current                    -- outside any InstanceID: instance 0
         let changes := if contains st.changes cur then st.changes else set st.changes cur []
@@ -67,7 +68,7 @@ def step (st : HSt) : Sax → Except PyErr HSt
           | .error e => .error e
           | .ok ch' => .ok { st with changes := ch' }
   | .stop name =>
-    if name = sInstanceID then .ok { st with current := none } else .ok st
+    if stripPrefix name = sInstanceID then .ok { st with current := none } else .ok st
 
 /-- the handler over a whole event stream -/
 def runFrom (st : HSt) : List Sax → Except PyErr HSt
@@ -107,6 +108,7 @@ deriving DecidableEq, Repr
 structure Inst where
   id : S
   entries : List Entry
+  ipfx : Option S := none      -- prefix of the instance element (`rcs:InstanceID`)
 deriving DecidableEq, Repr
 
 /-- `loose` = entries written directly under `Event`, before the first `InstanceID` element (the
@@ -130,8 +132,13 @@ def entryAttrs (e : Entry) : List (S × S) :=
 
 def entryEvents (e : Entry) : List Sax := [.start (qname e) (entryAttrs e), .stop (qname e)]
 
+def iname (i : Inst) : S :=
+  match i.ipfx with
+  | some p => p ++ ':' :: sInstanceID
+  | none => sInstanceID
+
 def instEvents (i : Inst) : List Sax :=
-  .start sInstanceID [(sVal, i.id)] :: (i.entries.flatMap entryEvents ++ [.stop sInstanceID])
+  .start (iname i) [(sVal, i.id)] :: (i.entries.flatMap entryEvents ++ [.stop (iname i)])
 
 def events (d : LcDoc) : List Sax :=
   .start sEvent d.rootAttrs :: (d.loose.flatMap entryEvents ++ (d.insts.flatMap instEvents ++ [.stop sEvent]))
